@@ -221,7 +221,10 @@ func init() {
 			{Name: "case-trie-fragments", Space: "fragment alphabet (H2 + event/URL/scheme/doctype names + new literals of the tree under test)^<=3 (quick) / <=4 (thorough) x case assignments", Share: 4,
 				Run: func(w *fw.W) { w.Trie(c11FragNow(), 1, w.Pick(3, 4)) }, Eval: evalC11Case},
 			{Name: "case-vectors", Space: "every C04 grammar vector x case assignments", Share: 2,
-				Run: func(w *fw.W) { w.Each(len(vectors), func(i int) { w.Item(asciiLower(vectors[i]), "") }) }, Eval: evalC11Case},
+				Run: func(w *fw.W) {
+					w.Each(len(vectors), func(i int) { w.Item(asciiLower(vectors[i]), "") })
+					list(w, deltaSlotsHTML()) // new literals of the tree under test in the slots of canonical vectors
+				}, Eval: evalC11Case},
 			{Name: "case-scheme-tails", Space: "every URL attribute x 4 schemes x tail in {each letter of the scheme, the scheme again, x} x 2 quotings x case assignments: a later occurrence of a scheme letter in the other case must not hide the scheme", Share: 1,
 				Run: func(w *fw.W) {
 					var items []string
@@ -256,7 +259,10 @@ func init() {
 			{Name: "nul-trie-fragments", Space: "fragment alphabet^<=3 (quick) / <=4 (thorough) x 5 contexts x interior positions", Share: 3,
 				Run: func(w *fw.W) { w.Trie(c11FragNow(), 1, w.Pick(3, 4)) }, Eval: evalC11Nul},
 			{Name: "nul-vectors", Space: "every C04 grammar vector x 5 contexts x interior positions", Share: 2,
-				Run: func(w *fw.W) { w.Each(len(vectors), func(i int) { w.Item(vectors[i], "") }) }, Eval: evalC11Nul},
+				Run: func(w *fw.W) {
+					w.Each(len(vectors), func(i int) { w.Item(vectors[i], "") })
+					list(w, deltaSlotsHTML())
+				}, Eval: evalC11Nul},
 		},
 	})
 }
